@@ -66,6 +66,17 @@ def main():
         junk = [bytearray((i * 37) % 509 + 1) for i in range(n)]
         keep = junk[::7]
         del junk
+    if perturb.get("prior_library_use"):
+        # unrelated earlier use of the library in this process: default-constructed
+        # objects are created and used (must not leak into later runs)
+        from pydsol.core.streams import StreamInformation, MersenneTwister
+        from pydsol.core.distributions import DistNormal, DistExponential
+        for i in range(perturb["prior_library_use"]):
+            si = StreamInformation()
+            st = si.get_stream("default")
+            [st.next_float() for _ in range(i + 1)]
+            DistNormal(st, 0.0, 1.0).draw()
+            DistExponential(MersenneTwister(i + 1), 2.0).draw()
     if perturb.get("prior_events"):
         from pydsol.core.pubsub import EventType
         for i in range(perturb["prior_events"]):
